@@ -17,7 +17,7 @@ def decOp (S : Schema) (ty : Ty) (h : String) : String :=
   match ofHex h with
   | none => "bad-op"
   | some b =>
-    match decTy S (fuelFor b.length) ty b with
+    match decTy S (fuelFor b.length) TdModel.Facts.C21.maxNestingDepth ty b with
     | .error e => "err " ++ e.tag
     | .ok (v, rest) =>
       let consumed := b.take (b.length - rest.length)
